@@ -5,7 +5,7 @@
    notifies the waiters), detail condition variable, both agent instances). *)
 From Coq Require Import List ZArith Bool.
 From Pika Require Import Base.Conc Base.Agent Model.Semaphore Proofs.SemaphoreProofs Proofs.SemaphoreScenarios
-  Proofs.SemaphoreProgress Proofs.SemaphoreSyncWait.
+  Proofs.SemaphoreProgress Proofs.SemaphoreSyncWait Model.SemaphoreMixed Proofs.SemaphoreMixedProofs Proofs.SemaphoreMixedProgress.
 Import ListNotations.
 Local Open Scope Z_scope.
 
@@ -261,3 +261,175 @@ Example C08_set_max_difference_lowers_example :
   stuck all_os (fst c) (snd c) /\ pc (snd c 0%nat) = Blk (CSl 6) /\ is_blocked_thread c 0%nat = true /\
   map ev_res (slog (fst c)) = [true; true; true].
 Proof. exact set_max_difference_lowers_example. Qed.
+
+(* ---------------------------------------------------------------------------------------------
+   Round p12b.  SEVERAL semaphore objects used by the same threads (Model/SemaphoreMixed.v): every
+   operation of a program is tagged with its object; the data of the objects are independent; the
+   agent table (one agent per thread: blocked / resume token) is SHARED by all objects — a thread
+   blocked on object A is blocked, a token left by A is consumed by the next suspend on B, a stale
+   resume hits the thread wherever it waits.  A step of thread t is the unchanged base step
+   (sem_tstep) of its current operation on [view G ob] = data of ob + the one agent table.
+   [pub_progs_mixed fam]: counting objects get public counting operations only, sliding objects get
+   sliding operations only (plus stale resumes anywhere).
+   Conservation per counting object, whatever runs on the other objects — for every kind assignment,
+   thread count, tagged program, schedule, deadline oracle, number and families of objects. *)
+Theorem C08_permits_conserved_mixed_objects : forall fam kind sched v lo md progs,
+  (forall ob, 0 <= v ob) -> pub_progs_mixed fam progs ->
+  forall ob, fam ob = Counting ->
+  let g := objs (fst (mx_run kind sched v lo md progs)) ob in
+  value g + acquired g = v ob + released g /\ acquired g <= v ob + released g /\ 0 <= value g /\
+  acquired g = sum_taken (slog g).
+Proof. exact permits_conserved_mixed_objects. Qed.
+Print Assumptions C08_permits_conserved_mixed_objects.
+
+(* stronger: on EVERY object, for every tagged program whose release counts are not negative
+   (operations of both families may even hit the same object, any counts) *)
+Theorem C08_permits_conserved_mixed_any : forall kind sched v lo md progs,
+  (forall ob, 0 <= v ob) -> wf_mprogs progs ->
+  forall ob, let g := objs (fst (mx_run kind sched v lo md progs)) ob in
+  value g + acquired g = v ob + released g /\ acquired g <= v ob + released g /\ 0 <= value g /\
+  acquired g = sum_taken (slog g).
+Proof. exact permits_conserved_mixed_any. Qed.
+Print Assumptions C08_permits_conserved_mixed_any.
+
+(* what the return values mean on every object of a mixed run (C08_nonblocking_true_iff_consumed,
+   C08_timed_true_iff_consumed, C08_sliding_wait_only_if carried over): read off the object's own log *)
+Theorem C08_return_values_mixed_objects : forall kind sched v lo md progs, (forall ob, 0 <= v ob) -> wf_mprogs progs ->
+  forall ob e, In e (slog (objs (fst (mx_run kind sched v lo md progs)) ob)) ->
+  (ev_op e = TryAcquire ->
+     (ev_res e = true <-> 1 <= ev_avail e) /\ (ev_res e = true <-> ev_taken e = 1) /\ (ev_res e = false <-> ev_taken e = 0)) /\
+  (forall n, 0 < n -> ev_op e = TryWait n ->
+     (ev_res e = true <-> n <= ev_avail e) /\ (ev_res e = true <-> ev_taken e = n) /\ (ev_res e = false <-> ev_taken e = 0)) /\
+  (forall n, 0 < n -> ev_op e = TimedAcquire n ->
+     (ev_res e = true <-> ev_taken e = n) /\ (ev_res e = false <-> ev_taken e = 0) /\ (ev_res e = true -> n <= ev_avail e)) /\
+  (forall n, ev_op e = Acquire n -> ev_res e = true /\ ev_taken e = n /\ n <= ev_avail e) /\
+  (forall u, ev_op e = SlWait u -> ev_res e = true /\ u - ev_maxd e <= ev_lower e) /\
+  (forall u, ev_op e = SlTryWait u -> (ev_res e = true <-> u - ev_maxd e <= ev_lower e)).
+Proof. exact return_values_mixed. Qed.
+Print Assumptions C08_return_values_mixed_objects.
+
+(* what exactly is shared (step level, any state): a step of thread t whose current operation is on
+   object [fst x] leaves the data of every other object untouched, and changes the agent of a thread
+   u <> t only if u is the head of THAT object's cv queue (notify_one), the popped waiter t's OS-thread
+   resume is waiting for, or the target of t's StaleResume *)
+Theorem C08_mixed_objects_step_frame : forall kind o t G L x rest, mtodo L = x :: rest ->
+  let G' := fst (mx_tstep kind o t G L) in
+  (forall X, X <> fst x -> objs G' X = objs G X) /\
+  (forall u, u <> t -> hd_error (queue (objs G (fst x))) <> Some u -> (forall chk k, mpc L <> ResWait u chk k) ->
+             snd x <> StaleResume u -> mag G' u = mag G u).
+Proof. exact mx_step_frame. Qed.
+Print Assumptions C08_mixed_objects_step_frame.
+
+(* non-vacuity: counting object 0 + sliding object 1, three pika tasks; the wake-up token that
+   release() on object 0 leaves on the timed waiter makes its first suspend() on object 1 return
+   spuriously (shared agent); final state stuck with thread 0 blocked on object 0, value 0 *)
+Example C08_mixed_objects_example :
+  pub_progs_mixed mx_ex_fam mx_ex_progs /\
+  (let c := mx_ex_run mx_ex_s1 in
+   map ev_res (slog (objs (fst c) 0%nat)) = [true; true] /\ value (objs (fst c) 0%nat) = 0 /\
+   mag (fst c) 2%nat = {| tok := true; blocked := false |} /\ cur_obj (snd c 2%nat) = Some 1%nat /\ mpc (snd c 2%nat) = Idle) /\
+  (let c := mx_ex_run mx_ex_s2 in
+   mpc (snd c 2%nat) = Blk (CSl 5) /\ mag (fst c) 2%nat = a_init /\ queue (objs (fst c) 1%nat) = [2%nat] /\
+   queue (objs (fst c) 0%nat) = []) /\
+  (let c := mx_ex_run mx_ex_s3 in
+   mx_stuck all_task (fst c) (snd c) /\ mx_finished (snd c 1%nat) /\ mx_finished (snd c 2%nat) /\
+   mx_waiting_for (snd c 0%nat) 0%nat (CAcq 1) /\ blocked (mag (fst c) 0%nat) = true /\
+   value (objs (fst c) 0%nat) = 0 /\ acquired (objs (fst c) 0%nat) = 1 /\ released (objs (fst c) 0%nat) = 1 /\
+   lower (objs (fst c) 1%nat) = 4 /\ queue (objs (fst c) 1%nat) = [] /\
+   map ev_op (slog (objs (fst c) 1%nat)) = [SlWait 5; SlSignal 4]).
+Proof. exact mixed_example. Qed.
+
+(* sanity: with every operation on object 0 the mixed model computes the base model's run (C08_example) *)
+Example C08_mixed_is_base_example :
+  let progs := fun t => match t with 0%nat => [Acquire 1; TryAcquire] | 1%nat => [Release 2] | 2%nat => [TryAcquire] | _ => [] end in
+  let s := [(0%nat,false);(0%nat,false);(1%nat,false);(2%nat,false);(0%nat,false);(0%nat,false)] in
+  let c := sem_run all_os s 0 0 0 progs in
+  let m := mx_run all_os s (fun _ => 0) (fun _ => 0) (fun _ => 0) (fun t => map (fun o => (0%nat, o)) (progs t)) in
+  let g := objs (fst m) 0%nat in
+  (value g, acquired g, released g, queue g, popped g, holder g, sigl g, slog g) =
+  (value (fst c), acquired (fst c), released (fst c), queue (fst c), popped (fst c), holder (fst c), sigl (fst c), slog (fst c)) /\
+  map (fun t => (mag (fst m) t, mpc (snd m t), map snd (mtodo (snd m t)))) [0;1;2;3]%nat =
+  map (fun t => (ag (fst c) t, pc (snd c t), todo (snd c t))) [0;1;2;3]%nat.
+Proof. exact mixed_is_base_example. Qed.
+
+(* try_wait(0) (allowed by pub_progs; NOT covered by C08_nonblocking_true_iff_consumed, which needs
+   0 < n because "true iff n consumed" and "false iff 0 consumed" collide at n = 0): in every
+   reachable state, a thread about to run try_wait(0) with the lock free returns TRUE (0 <= value
+   always), consumes nothing, leaves value / acquired / released / queue / popped / agents / signal
+   loops untouched (wakes nobody) and logs (true, taken 0); with the lock held (an OS-thread resume
+   in flight) it spins (stutter). *)
+Theorem C08_try_wait_zero : forall kind sched v0 lo0 md progs, 0 <= v0 -> wf_progs progs ->
+  let c := sem_run kind sched v0 lo0 md progs in
+  forall t o rest, pc (snd c t) = Idle -> todo (snd c t) = TryWait 0 :: rest ->
+  let g := fst c in let r := sem_tstep kind o t g (snd c t) in
+  (holder g <> None -> r = (g, snd c t)) /\
+  (holder g = None ->
+     snd r = {| todo := rest; pc := Idle |} /\
+     value (fst r) = value g /\ acquired (fst r) = acquired g /\ released (fst r) = released g /\
+     lower (fst r) = lower g /\ maxd (fst r) = maxd g /\
+     queue (fst r) = queue g /\ popped (fst r) = popped g /\ sigl (fst r) = sigl g /\
+     holder (fst r) = None /\ ag (fst r) = ag g /\
+     exists e, slog (fst r) = e :: slog g /\ ev_tid e = t /\ ev_op e = TryWait 0 /\ ev_res e = true /\
+               ev_taken e = 0 /\ ev_avail e = value g /\ 0 <= ev_avail e).
+Proof. exact try_wait_zero. Qed.
+Print Assumptions C08_try_wait_zero.
+
+Example C08_try_wait_zero_example :
+  let progs := fun t => match t with 0%nat => [Acquire 1] | 1%nat => [TryWait 0; TryWait 0] | _ => [] end in
+  wf_progs progs /\ pub_progs progs /\
+  let c := sem_run all_os [(0,false);(0,false);(1,false);(1,false)]%nat 0 0 0 progs in
+  value (fst c) = 0 /\ acquired (fst c) = 0 /\ queue (fst c) = [0%nat] /\ popped (fst c) = [] /\
+  blocked (ag (fst c) 0%nat) = true /\ finished (snd c 1%nat) /\
+  map ev_res (slog (fst c)) = [true; true] /\ map ev_taken (slog (fst c)) = [0; 0] /\ map ev_avail (slog (fst c)) = [0; 0].
+Proof. exact try_wait_zero_example. Qed.
+
+(* try_wait(n) with n < 0 (detail API only; outside pub_progs): always true, "consumes" n, i.e. ADDS
+   -n permits (value grows, acquired shrinks: conservation C08_permits_conserved still holds), and
+   wakes nobody although the count grew *)
+Theorem C08_try_wait_negative_adds_permits : forall kind sched v0 lo0 md progs n, 0 <= v0 -> wf_progs progs -> n < 0 ->
+  let c := sem_run kind sched v0 lo0 md progs in
+  forall t o rest, pc (snd c t) = Idle -> todo (snd c t) = TryWait n :: rest -> holder (fst c) = None ->
+  let g := fst c in let r := sem_tstep kind o t g (snd c t) in
+  value g < value (fst r) /\ value (fst r) = value g - n /\ acquired (fst r) = acquired g + n /\
+  released (fst r) = released g /\ queue (fst r) = queue g /\ popped (fst r) = popped g /\ ag (fst r) = ag g /\
+  sigl (fst r) = sigl g /\ exists e, slog (fst r) = e :: slog g /\ ev_res e = true /\ ev_taken e = n.
+Proof. exact try_wait_negative_adds_permits. Qed.
+Print Assumptions C08_try_wait_negative_adds_permits.
+
+(* ... hence the progress statement is false with a negative count: [acquire blocks] [try_wait(-1)]
+   is stuck with value = 1 and the acquirer blocked in the queue (this is why pub_progs demands
+   0 <= n for TryWait n) *)
+Theorem C08_no_blocked_with_permits_negative_try_wait_refuted :
+  let c := sem_run all_os [(0,false);(0,false);(1,false)]%nat 0 0 0 neg_progs in
+  wf_progs neg_progs /\ os_untimed all_os neg_progs /\
+  stuck all_os (fst c) (snd c) /\ waiting_for (snd c 0%nat) (CAcq 1) /\ value (fst c) = 1 /\
+  pc (snd c 0%nat) = Blk (CAcq 1) /\ blocked (ag (fst c) 0%nat) = true /\ queue (fst c) = [0%nat] /\
+  finished (snd c 1%nat) /\ map ev_res (slog (fst c)) = [true] /\ map ev_taken (slog (fst c)) = [-1] /\
+  released (fst c) = 0 /\ acquired (fst c) = -1 /\ holder (fst c) = None /\ popped (fst c) = [] /\ sigl (fst c) = [].
+Proof. exact no_blocked_with_permits_negative_try_wait_refuted. Qed.
+Print Assumptions C08_no_blocked_with_permits_negative_try_wait_refuted.
+
+(* Progress half for SEVERAL objects with the one shared agent table.  [os_untimed_m]: an OS-thread
+   agent runs no timed acquire on any object (F14).  In every reachable stuck state ([mx_stuck]: every
+   thread has finished or the base step of its current operation on its current object is a stutter,
+   whatever the clock says), for every COUNTING object ob — whatever sliding operations the same
+   threads run on other objects, whatever stale resumes and left-over tokens cross between objects:
+   nobody waits on ob for n permits with value >= n; every thread whose current operation is on ob
+   is blocked in acquire() with value = 0; ob's lock is free, no wake-up of ob is in flight
+   (popped = []), no signal loop of ob is active. *)
+Theorem C08_no_blocked_with_permits_mixed_objects : forall fam kind sched v lo md progs,
+  (forall ob, 0 <= v ob) -> pub_progs_mixed fam progs -> os_untimed_m kind progs ->
+  let c := mx_run kind sched v lo md progs in
+  mx_stuck kind (fst c) (snd c) ->
+  forall ob, fam ob = Counting ->
+  (forall t n, mx_waiting_for (snd c t) ob (CAcq n) -> value (objs (fst c) ob) < n) /\
+  (forall t, cur_obj (snd c t) = Some ob -> mpc (snd c t) = Blk (CAcq 1) /\ blocked (mag (fst c) t) = true /\ value (objs (fst c) ob) = 0) /\
+  holder (objs (fst c) ob) = None /\ popped (objs (fst c) ob) = [] /\ tot (sigl (objs (fst c) ob)) = 0.
+Proof. exact no_blocked_with_permits_mixed. Qed.
+Print Assumptions C08_no_blocked_with_permits_mixed_objects.
+
+Example C08_mixed_progress_example :
+  pub_progs_mixed mx_ex_fam mx_ex_progs /\ os_untimed_m all_task mx_ex_progs /\ mx_ex_fam 0%nat = Counting /\
+  let c := mx_ex_run mx_ex_s3 in
+  mx_stuck all_task (fst c) (snd c) /\ mx_waiting_for (snd c 0%nat) 0%nat (CAcq 1) /\ value (objs (fst c) 0%nat) = 0.
+Proof. exact mixed_progress_example. Qed.
